@@ -42,6 +42,12 @@ def D(name):
     return ["d", name]
 
 
+def absdiff(a, b):
+    """|a - b| written the way a user can write it for PyGOM without Abs (whose second derivative is a DiracDelta that
+    cannot be compiled): Piecewise((a - b, a - b >= 0), (b - a, True))."""
+    return ["absdiff", a, b]
+
+
 def add(a, b):
     return ["+", a, b]
 
@@ -108,6 +114,9 @@ def to_str(e):
         return "exp(%s)" % to_str(e[1])
     if k == "cos":
         return "cos(%s)" % to_str(e[1])
+    if k == "absdiff":
+        a, b = to_str(e[1]), to_str(e[2])
+        return "Piecewise((%s - %s, %s - %s >= 0), (%s - %s, True))" % (a, b, a, b, b, a)
     raise ValueError(e)
 
 
@@ -160,6 +169,10 @@ def evaluate(e, env, ops):
         return ops.exp(evaluate(e[1], env, ops))
     if k == "cos":
         return ops.cos(evaluate(e[1], env, ops))
+    if k == "absdiff":
+        d = ops.add(evaluate(e[1], env, ops), ops.neg(evaluate(e[2], env, ops)))
+        v = getattr(d, "v", d)
+        return d if (v.real if isinstance(v, complex) else v) >= 0 else ops.neg(d)
     raise ValueError(e)
 
 
